@@ -52,11 +52,36 @@ def build_state(st):
     return d, cg, nb
 
 
-def check_removal(st, R):
+def check_removal(st, R, rng=None):
+    """all departed subsets on one Discovery object; then the hosting changes on that SAME object (computations and
+    replicas move, as after a repair) and all the subsets are asked again: the information must follow the current state"""
+    import copy
+
+    d, cg, nb = build_state(st)
+    P = scan_removals(st, d, cg, nb, R)
+    if P or rng is None:
+        return P
+    st2 = copy.deepcopy(st)
+    for c in rng.sample(st2["comps"], min(len(st2["comps"]), rng.randint(1, 2))):
+        others = [a for a in st2["agents"] if a != st2["host"][c]]
+        if not others:
+            continue
+        new = rng.choice(others)
+        d.unregister_computation(c, st2["host"][c], publish=False)
+        d.register_computation(c, new, publish=False)
+        st2["host"][c] = new
+        # replicas are kept by the discovery across the re-registration; a replica is never on the host itself
+        if new in st2["replicas"][c]:
+            d.unregister_replica(c, new, publish=False)
+            st2["replicas"][c] = [a for a in st2["replicas"][c] if a != new]
+    R.count("states_rescanned_after_a_hosting_change")
+    return [("after-hosting-change:" + k, m) for k, m in scan_removals(st2, d, cg, nb, R)]
+
+
+def scan_removals(st, d, cg, nb, R):
     from pydcop.reparation import removal
 
     P = []
-    d, cg, nb = build_state(st)
     agents = st["agents"]
     for r in range(1, len(agents) + 1):
         for departed in itertools.combinations(agents, r):
@@ -239,7 +264,7 @@ def worker(job):
         if i % 2 == 0:
             st = gen_state(rng)
             try:
-                P = check_removal(st, R)
+                P = check_removal(st, R, rng)
             except Exception as e:
                 import traceback
 
